@@ -30,6 +30,17 @@ func (i *IRCServer) cmdServerSvsnick(s *Session, reply *Replyctx, msg *irc.Messa
 		return
 	}
 
+	if other, ok := i.nicks[NickToLower(msg.Params[1])]; ok && other != session {
+		// Like in cmdNick(): the nickname belongs to somebody else, whose
+		// entry in the nickname index must not be overwritten.
+		i.sendServices(reply, &irc.Message{
+			Prefix:  i.ServerPrefix,
+			Command: irc.ERR_NICKNAMEINUSE,
+			Params:  []string{"*", msg.Params[1], "Nickname is already in use"},
+		})
+		return
+	}
+
 	// TODO(secure): kill this code duplication with cmdNick()
 	oldPrefix := session.ircPrefix
 	oldNick := NickToLower(msg.Params[0])
